@@ -284,12 +284,12 @@ func rulesC01(e *Engine, r *Report) {
 	// ---------------------------------------------------------------- R01.7
 	r.Rule("R01.7", "the companion constructor returns a companion read from disk only under cmp.Hash == file.Hash")
 	if fn := needFn(e, r, "R01.7", "stage.newLocalCompanion"); fn != nil {
-		rd := "call(stage.readLocalCompanion)(p0, p1.Name)#0"
+		rd := "call(stage.readLocalCompanion)((p0 + \".cmp\"), p1.Name)#0"
 		cls := labeler(
 			C("("+rd+".Hash == p1.Hash)", "sameHash"),
 			C("(p1.Hash == "+rd+".Hash)", "sameHash"),
 			C("("+rd+" == nil)", "noneOnDisk"),
-			C("(call(stage.readLocalCompanion)(p0, p1.Name)#1 != nil)", "readErr"),
+			C("(call(stage.readLocalCompanion)((p0 + \".cmp\"), p1.Name)#1 != nil)", "readErr"),
 		)
 		res := e.Flow(fn, FlowOpts{Classify: cls, Target: isReturn})
 		n := 0
@@ -476,6 +476,9 @@ func rulesC01(e *Engine, r *Report) {
 	e.shareRule(r, "C06", "R06.14", "R01.14", "what is delivered after a restart is what its log record says: Recover enters a parked (.wait) file as validated under the companion's name, hash and size only when the companion can only be that file's (no newer version in progress) or the parked file's MD5 equals the companion's hash")
 	// ---------------------------------------------------------------- R01.15
 	e.shareRule(r, "C05", "R05.14", "R01.15", "what was validated is what stays delivered: no write into a staged file is made outside the file's lock, where it could go on - through its handle - after the file was validated and moved to the final directory")
+	// ---------------------------------------------------------------- R01.16
+	r.Rule("R01.16", "every staged file has its own record: the helpers that read and write companions append the companion extension only to a path that does not end in it already - so every call in package stage hands them either a path built with the extension (`<base> + \".cmp\"`) or a path that was tested to carry it (a directory entry met by a walk); a bare base path would make the file called `x.cmp` share - and overwrite - the companion of the file `x`")
+	checkCompanionPathsExplicit(e, r, "R01.16")
 }
 
 func shorten(s string) string {
@@ -483,4 +486,33 @@ func shorten(s string) string {
 		return s[:40] + "…" + s[len(s)-45:]
 	}
 	return s
+}
+
+
+// checkCompanionPathsExplicit: shared by R01.16 and R09.13.
+func checkCompanionPathsExplicit(e *Engine, r *Report, rule string) {
+	n := 0
+	for _, fn := range e.FuncsIn("stage") {
+		name := e.ShortName(fn)
+		for _, s := range e.SitesIn(fn) {
+			key := e.CalleeKey(s.Instr.Common())
+			if key != "stage.readLocalCompanion" && key != "stage.writeCompanion" {
+				continue
+			}
+			arg := e.Canon(s.Instr.Common().Args[0])
+			if name == "stage.readLocalCompanion" && strings.HasPrefix(arg, "phi((p0 + \".cmp\")|p0)") {
+				continue // the helper's own rewrite of a legacy companion, after it has normalised the path
+			}
+			n++
+			construct := fmt.Sprintf("%s: %s is given a path that carries the companion extension", name, strings.TrimPrefix(key, "stage."))
+			if strings.Contains(arg, "+ \".cmp\")") {
+				r.Ok(rule, construct, e.InstrPos(s.Instr), 1, "built with the extension: "+shorten(arg))
+				continue
+			}
+			cls := labeler(C("(call(filepath.Ext)("+arg+") == \".cmp\")", "hasExt"), C("(\".cmp\" == call(filepath.Ext)("+arg+"))", "hasExt"))
+			e.Guarded(r, rule, construct, fn, only(s.Instr.(ssa.Instruction)), cls,
+				func(l LabelSet) bool { return l.Has("hasExt") }, "filepath.Ext(path) == \".cmp\", or a path built as <base> + \".cmp\"")
+		}
+	}
+	r.Min(rule, "calls of the companion helpers in package stage", n, 6)
 }
